@@ -465,3 +465,85 @@ def rand_si(rng, w, p_unaligned=0.15):
         if ub - lb > M(w):
             ub = lb + n * s
     return norm(w, s, lb, ub)
+
+
+# ---------------------------------------------------------------------------------------------- queries (C22)
+def linear_pieces(t):
+    """members as maximal runs without wrap: list of (first, count) with values first + j*stride, j < count"""
+    w, s, lb, ub = t
+    if s == 0:
+        return [(lb, 1)]
+    n = span(t) // s + 1
+    out = []
+    k = 0
+    while k < n:
+        p0 = (lb + k * s) & M(w)
+        cnt = min(n - k, (M(w) - p0) // s + 1)
+        out.append((p0, cnt))
+        k += cnt
+        if len(out) > 100000:
+            raise ValueError("too many pieces")
+    return out
+
+
+def extremes(t, signed):
+    """exact (min, max) of the members in the requested signedness, without enumerating wide intervals"""
+    w, s, lb, ub = t
+    cand = []
+    half = 1 << (w - 1)
+    for p0, cnt in linear_pieces(t):
+        last = p0 + (cnt - 1) * s
+        cand += [p0, last]
+        if s and p0 < half <= last:          # members next to the north pole
+            j = (half - 1 - p0) // s
+            cand += [p0 + j * s, p0 + (j + 1) * s]
+    vals = [sgn(x, w) for x in cand] if signed else cand
+    return min(vals), max(vals)
+
+
+QUERIES = {
+    "cardinality": lambda a: a.cardinality,
+    "eval": lambda a, n, signed: a.eval(n, signed=bool(signed)),
+    "max": lambda a, signed: a.max(signed=bool(signed)),
+    "min": lambda a, signed: a.min(signed=bool(signed)),
+    "solution": lambda a, v: a.solution(v),
+}
+
+
+def run_query(op, args):
+    objs = [mk(x) if isinstance(x, (tuple, str)) else x for x in args]
+    return call(QUERIES[op], *objs)
+
+
+def query_oracle(op, args, r):
+    """exactness of a query of the real code -> None | (kind, detail)"""
+    t = args[0]
+    if isinstance(r, str) and r.startswith("err:"):
+        return (r, r)
+    w = t[0]
+    if op == "cardinality":
+        if r != card(t):
+            return ("wrong", "cardinality %r, the interval has %d members" % (r, card(t)))
+    elif op == "eval":
+        n, signed = args[1], args[2]
+        if not isinstance(r, list):
+            return ("wrong", "eval returned %r" % (r,))
+        want = min(n, card(t))
+        back = [(x & M(w)) if signed else x for x in r]
+        if signed and any(not (-(1 << (w - 1)) <= x < (1 << (w - 1))) for x in r):
+            return ("wrong", "eval(signed) returned a value outside the signed range: %r" % (r[:6],))
+        if any(not member(t, x) for x in back):
+            return ("wrong", "eval lists a non-member: %r" % ([x for x in back if not member(t, x)][:4],))
+        if len(set(r)) != len(r):
+            return ("wrong", "eval lists a member twice")
+        if len(r) != want:
+            return ("wrong", "eval(%d) lists %d values, the interval has %d members" % (n, len(r), card(t)))
+    elif op in ("max", "min"):
+        lo, hi = extremes(t, args[1])
+        want = hi if op == "max" else lo
+        if r != want:
+            return ("wrong", "%s(signed=%s) = %r, the %s member is %d" % (op, bool(args[1]), r, "greatest" if op == "max" else "least", want))
+    elif op == "solution":
+        if r is not member(t, args[1] & M(w)):
+            return ("wrong", "solution(%d) = %r but membership is %s" % (args[1], r, member(t, args[1] & M(w))))
+    return None
